@@ -198,6 +198,27 @@ def task_static(ctx, repo):
         text-level mismatch is the finding."""
         return dict(reproduced=False, note='static Cython methods of the '
                     'template: compiled only inside a generated module')
+    # C types are dropped by the extraction, so the one thing it cannot see
+    # is stated on the template text: every time / time-step quantity of the
+    # compiled integrator and evaluator is a C double (a `float` parameter
+    # rounds stage_dt to single precision before t = orig_t + stage_dt)
+    import os
+    bad = []
+    for rel in (MAKO, 'pysph/sph/acceleration_eval_cython.mako'):
+        with open(os.path.join(repo.root, rel)) as f:
+            for ln, line in enumerate(f, 1):
+                code = line.split('#')[0]
+                if re.search(r'\b(cdef|cpdef|def)\b', code) and re.search(
+                        r'\bfloat\b', code):
+                    bad.append('%s:%d %s' % (rel, ln, code.strip()[:80]))
+                for nm in ('t', 'dt', 'stage_dt', 'orig_t'):
+                    mm = re.search(r'\b(\w+)\s+%s\b\s*[,)=]' % nm, code)
+                    if mm and re.search(r'\b(cdef|cpdef)\b', code) and \
+                            mm.group(1) in ('float', 'int', 'long'):
+                        bad.append('%s:%d %s is %s' % (rel, ln, nm,
+                                                       mm.group(1)))
+    obs.append(Obligation('template.time_quantities_are_double', [],
+                          _bool(not bad), W, extra=dict(narrow=bad[:4])))
     ctx.prove('template.static_methods', obs, replay=rp, sample=True)
 
 
